@@ -11,7 +11,7 @@ import itertools
 from hypothesis import strategies as st
 
 from vf import lab
-from vf.core import Prop, Outcome
+from vf.core import Prop, Outcome, fd
 
 from deep.api.tracepoint.trigger import build_trigger
 from deep.api.tracepoint.tracepoint_config import MetricDefinition, LabelExpression
@@ -97,7 +97,7 @@ def to_code_metric(m, case):
     return MetricDefinition(m['name'], t, labels, m['expr'], m.get('namespace'), m.get('help'), m.get('unit'))
 
 
-METRIC = st.fixed_dictionaries({
+METRIC = fd({
     'type': st.sampled_from(TYPES),
     'name': st.sampled_from(['m_a', 'm_b', 'requests_total', 'x']),
     'expr': st.sampled_from(list(EXPR_KINDS.values())),
@@ -136,7 +136,7 @@ class C17(Prop):
                    'case': ['lower', 'upper', 'title'][i % 3], 'fire_count': '2'}
 
     def strategy(self, tier):
-        return st.fixed_dictionaries({
+        return fd({
             'metrics': st.lists(METRIC, min_size=1, max_size=4),
             'nproc': st.sampled_from([0, 1, 1, 2, 3]),
             'route': st.sampled_from(['code', 'proto']),
@@ -166,6 +166,7 @@ class C17(Prop):
         fc = int(recipe['fire_count'])
         fired = 0
         late = None
+        removed = []
         for hit in range(3):
             lab.CLOCK.advance_ms(1)
             gen = lab.frame_at(PATH, LINE, 'target', frame_values(hit), globs=HOST_GLOBALS)
@@ -173,13 +174,23 @@ class C17(Prop):
             if recipe['nproc'] == 0 and hit == 2:
                 # a processor appears later: the fire budget must be untouched by the hits nothing was reported for
                 late = lab.RecMetricProcessor(name='late')
-                cfg.plugins = [late]
+                if recipe.get('case') == 'upper':
+                    cfg.plugins = [late]
+                else:
+                    cfg.plugins.append(late)         # the plugin list is a plain list: in-place changes count too
                 procs = [late]
+            if recipe['nproc'] >= 2 and hit == 2 and recipe.get('case') == 'title':
+                del cfg.plugins[:]                  # processors removed in place: nothing may be reported any more
+                removed = [(p, len(p.calls)) for p in procs]
+                procs = []
             n0 = [len(p.calls) for p in procs]
             try:
                 handler.trace_call(frame, 'line', None)
             except BaseException as e:      # noqa
                 out.violate('trace_call raised %s' % lab.exc_bucket(e))
+            for p, k in removed:
+                if len(p.calls) != k:
+                    out.violate('metric calls differ: a processor removed from the plugin list is still reported to')
             active = len(procs) > 0
             permitted = active and (fc == -1 or fired < fc)
             if permitted:
